@@ -12,7 +12,8 @@
 //	stdout  up to -cap JSON lines per disagreement class, then one {"stats":...} line
 //	-seed N     selects codings and their random bytes
 //	-huge K     additionally run every K-th case with 23000-byte letters (0 = never)
-//	-corrupt N  self-test of the binding: damage one expectation of case N (must be reported)
+//	-corrupt N  self-test of the binding: the first case with index >= N that agrees with the model is replayed
+//	            again with one expectation damaged (must be reported; stats.corrupted_case says which)
 package main
 
 import (
@@ -23,6 +24,7 @@ import (
 	"math/rand"
 	"os"
 	"reflect"
+	"slices"
 	"strings"
 	"sync/atomic"
 	"time"
@@ -59,6 +61,7 @@ var (
 	nMismatch  int64
 	classCount = map[string]int64{}
 	capPer     = 100
+	corrupted  = int64(-1)
 	implSeen   = map[string]int64{}
 	codingSeen = map[string]int64{}
 	progress   atomic.Int64
@@ -114,10 +117,7 @@ func main() {
 				os.Exit(2)
 			}
 		}
-		if n == *corrupt {
-			a := &c.Steps[len(c.Steps)-1][0]
-			a.G = [2]int{a.G[0], a.G[1] + 1}
-		}
+		before := nMismatch
 		n++
 		current.Store(&c)
 		progress.Add(1)
@@ -127,10 +127,18 @@ func main() {
 		if *huge > 0 && n%*huge == 0 {
 			replay(&c, hugeCoding)
 		}
+		if *corrupt >= 0 && corrupted < 0 && n-1 >= *corrupt && nMismatch == before {
+			// binding self-test: first agreeing case from index -corrupt on, replayed with a damaged expectation
+			corrupted = n - 1
+			lastStep := slices.Clone(c.Steps[len(c.Steps)-1])
+			lastStep[0].G = [2]int{lastStep[0].G[0], lastStep[0].G[1] + 1}
+			c.Steps[len(c.Steps)-1] = lastStep
+			replay(&c, codings[0])
+		}
 	}
 	out.Flush()
 	_ = enc.Encode(map[string]any{"stats": map[string]any{"cases": n, "checks": nChecks, "mismatches": nMismatch,
-		"class_counts": classCount, "final_impl": implSeen, "codings": codingSeen}})
+		"class_counts": classCount, "final_impl": implSeen, "codings": codingSeen, "corrupted_case": corrupted}})
 }
 
 func makeCodings(seed int64) []coding {
